@@ -115,6 +115,14 @@ func vhListOp(s Stack, cfg *nodeConfig, model []any, op int, m int, tag string) 
 	case 7: // Reset
 		s.Reset()
 		model = []any{}
+	case 9: // switching off what is off, switching on what is on: nothing changes
+		o := cfg.opt
+		s.SetNegativeIndices(o&negidx != 0)
+		s.SetForwardIndices(o&fwdidx != 0)
+		s.SetNoNesting(o&nnest != 0)
+		s.SetReadOnly(o&ronly != 0)
+		s.SetParen(o&parens != 0)
+		verifAssert(cfg.opt == o, tag+"redundant-option-calls-change-nothing")
 	case 8: // SetFIFO: a one-way latch, whatever is passed later
 		old := cfg.ord
 		b := nondetBool()
@@ -226,7 +234,7 @@ func VH_C01_Hist(p []int) {
 	s, cfg := vhCtor(p[2])
 	model := []any{}
 	for step := 0; step < p[0]; step++ {
-		op := nondetChoice(9)
+		op := nondetChoice(10)
 		model = vhListOp(s, cfg, model, op, p[1], "")
 		vhInv(s, cfg, "inv")
 		vhAssertContent(s, model, "content")
